@@ -73,7 +73,7 @@ def opFactory : Op → Option FactoryRef
   | _ => none
 
 /-- int64 / UUID providers (those that own a `known` map) -/
-def ProvRef.isLeaf : ProvRef → Bool
+def isLeaf : ProvRef → Bool
   | .int64 _ => true
   | .uuid _ => true
   | .pass _ _ => false
